@@ -40,11 +40,11 @@ PROPS = {
     "C13": P("model_checking", GEN_RULE, 3000, 80000, [("MC_Codec.tla", "MC_Codec_C13_quick.cfg")], [("MC_Codec.tla", "MC_Codec_C13_thorough.cfg")], count_all=True),
     "C14": P("model_checking", GEN_RULE, 4000, 100000, [("MC_Codec.tla", "MC_Codec_C14_quick.cfg")], [("MC_Codec.tla", "MC_Codec_C14_thorough.cfg")], count_all=True),
     "C15": P("model_checking", GEN_RULE, 3000, 100000, [("MC_Elem.tla", "MC_Elem_C15_quick.cfg")], [("MC_Elem.tla", "MC_Elem_C15_thorough.cfg")], count_all=True),
-    "C16": P("exploration", GEN_RULE, 500, 5000, [("MC_Encl.tla", "MC_Encl_quick.cfg")], [("MC_Encl.tla", "MC_Encl_thorough.cfg")], count_all=True),
+    "C16": P("exploration", GEN_RULE, 600, 5000, [("MC_Encl.tla", "MC_Encl_quick.cfg")], [("MC_Encl.tla", "MC_Encl_thorough.cfg")], count_all=True),
     "C17": P("exploration", GEN_RULE, 2500, 30000, [("MC_Elem.tla", "MC_Elem_C17_quick.cfg")], [("MC_Elem.tla", "MC_Elem_C17_thorough.cfg")], count_all=True),
     "C18": P("exploration", GEN_RULE, 500, 5000, [("MC_Elem.tla", "MC_Elem_C15_quick.cfg")], [("MC_Elem.tla", "MC_Elem_C15_thorough.cfg")], count_all=True),
     "C19": P("model_checking", GEN_RULE, 2000, 60000, *O("C19"), count_all=True),
-    "C20": P("exploration", GEN_RULE, 2000, 60000, [("MC_Conc.tla", "MC_Conc_safe.cfg")], [("MC_Conc.tla", "MC_Conc_safe.cfg"), ("MC_Conc.tla", "MC_Conc_safe3.cfg")], count_all=True, race=True),
+    "C20": P("exploration", GEN_RULE, 3000, 60000, [("MC_Conc.tla", "MC_Conc_safe.cfg")], [("MC_Conc.tla", "MC_Conc_safe.cfg"), ("MC_Conc.tla", "MC_Conc_safe3.cfg")], count_all=True, race=True),
 }
 
 for _t in ("quick", "thorough"):
